@@ -14,7 +14,7 @@ import c12_sessions
 
 COQ_PROPS = 'props/C12.v'
 PARTIAL = ('proved over the reals for every N >= 2 and every M: estimate (real: value, u, df; complex: the 2x2 covariance of '
-           'the mean for EVERY sample, independent components exactly when the sample covariance is 0), multi_estimate_real '
+           'the mean for EVERY sample, always one dependent pair with the sample correlation -- 0 included -- registered), multi_estimate_real '
            '(closed form; u_k u_l r_kl = S_kl/(N(N-1)) incl. the cv != 0 guard; |r| <= 1 by Cauchy-Schwarz, so _clip_r is the '
            'identity in exact arithmetic), the bilinear combination identity (LPU double sum over the returned u, r = sample '
            'covariance of the combined series / N), estimate_digitized >= s/sqrt N, agreement of mean / standard_deviation / '
@@ -69,6 +69,16 @@ def gen_multi(rng, m, n):
             out.append(gen_series(rng, n, 'dyadic')); tags.append('dyadic'); continue
         out.append(gen_series(rng, n)); tags.append('free')
     return out, tags
+
+def gen_symmetric(rng):
+    """complex sample whose components BOTH vary and have sample covariance exactly 0 in binary64: a symmetric design
+    (x0 +- a, y0 +- b), every sign combination equally often, dyadic numbers so that all sums are exact"""
+    x0 = rng.randint(-16, 16) / 4.0; y0 = rng.randint(-16, 16) / 4.0
+    a = rng.randint(1, 12) / 4.0; b = rng.randint(1, 12) / 4.0
+    l = [(x0 + sa * a, y0 + sb * b) for sa in (1, -1) for sb in (1, -1)] * rng.randint(1, 3)
+    if rng.random() < 0.4: l += [(x0, y0)] * rng.randint(1, 2)          # centre points keep the symmetry
+    rng.shuffle(l)
+    return l
 
 def gen_digitized(rng, n):
     delta = rng.choice([0.0001, 0.001, 0.01, 0.5, 1.0, 0.25])
@@ -256,6 +266,8 @@ def gen_call(rng, i):
     if kind in ('meanc', 'sdc', 'suc', 'vcc', 'estc'):
         (a, b), tags = gen_multi(rng, 2, n)
         if rng.random() < 0.3: rng.shuffle(b) if tags[1] != 'const' else None
+        if not malformed and rng.random() < (0.35 if kind == 'estc' else 0.15):
+            l0 = gen_symmetric(rng); a = [v[0] for v in l0]; b = [v[1] for v in l0]; n = len(l0); tags = ['free', 'symmetric']
         l = to_pairs(a, b)
         if kind == 'meanc': return (kind, l), 'n=%d' % n
         if kind == 'estc': return (kind, l, rng.random() < 0.25), 'n=%d %s' % (n, tags[1])
@@ -486,6 +498,14 @@ def check_estimate_complex(l):
     vc = type_a.variance_covariance_complex([complex(*v) for v in l])
     if not all(close(g, w * n, mag * mag * 1e-6) for g, w in zip(vc, want)):
         return {'what': 'variance_covariance_complex', 'data': l}
+    # the M = 1 complex case of the linear-combination clause: any combination of the two components has N-1 dof
+    det = float(want[0] * want[3] - want[1] * want[2])
+    if det > 1e-6 * float(want[0] + want[3]) ** 2 / 4:
+        for name, y in (('z', z), ('(1+2j)*z', (1 + 2j) * z), ('(0.5-1.5j)*z', (0.5 - 1.5j) * z), ('z.real+z.imag', z.real + z.imag),
+                        ('2*z.real-0.75*z.imag', 2 * z.real - 0.75 * z.imag)):
+            d = core.dof(y)
+            if not abs(d - (n - 1)) <= 1e-6 * (n - 1):
+                return {'what': 'dof of %s is %r, N-1 = %d' % (name, d, n - 1), 'data': l, 'got': d, 'want': n - 1}
     return None
 
 def one_search_case(rng):
@@ -504,6 +524,7 @@ def one_search_case(rng):
         m = rng.randint(1, 3); ls, _ = gen_multi(rng, 2 * m, n)
         return check_complex, [[to_pairs(ls[2 * k], ls[2 * k + 1]) for k in range(m)], [(rc(), rc()) for _ in range(m)]]
     if t == 6: return c12_sessions.check_session, [c12_sessions.gen_session(rng)]
+    if rng.random() < 0.4: return check_estimate_complex, [gen_symmetric(rng)]
     (a, b), _ = gen_multi(rng, 2, n)
     return check_estimate_complex, [to_pairs(a, b)]
 
@@ -566,6 +587,16 @@ def multi_collinear_valueerror():
         if 'correlation coefficient' in str(ex):
             return True, {'a': COLLINEAR[0], 'b': COLLINEAR[1], 'error': str(ex)}
     return False, 'no exception'
+
+ZERO_COV = [1 + 2j, -1 + 2j, 1 - 2j, -1 - 2j]           # both components vary, sample covariance exactly 0
+def estimate_complex_zero_cov_dof():
+    """combinations of the two components of estimate(ZERO_COV) do not have N-1 = 3 degrees of freedom"""
+    from GTC import type_a, core
+    new_context(13)
+    z = type_a.estimate(ZERO_COV)
+    got = {'(1+2j)*z': core.dof((1 + 2j) * z), 'z.real+z.imag': core.dof(z.real + z.imag)}
+    bad = {k: v for k, v in got.items() if not abs(v - 3) <= 1e-6}
+    return bool(bad), {'data': [str(c) for c in ZERO_COV], 'dof': got, 'independent': bool(z.real._node.independent)}
 
 # ---------------------------------------------------------------- replay
 def detuple(x):
